@@ -413,7 +413,12 @@ func (g *Gen) genC04() {
 			if r.P(15) { // inputs around the scheme-length guards
 				u = r.ReCase(r.Pick("", "s", "si", "sip", "sips", "tel", "sip:", "tel:", "sips:", "sipx", "sips;")) + r.RandBytes("a:@;?1", 0, 2)
 			}
-			line = fmt.Sprintf("uri | B %s | P %d 0 0 | O | V | T | V | A %d %d | O", hx(u), len(u), r.N(300), r.N(len(u)+4))
+			ao, al := r.N(300), r.N(len(u)+4)
+			if r.P(25) { // target spans at and beyond the 16-bit range
+				ao = []int{65535 - len(u), 65535 - r.N(len(u)+1), 1 + r.N(50), 30000 + r.N(35535), 65535}[r.N(5)]
+				al = []int{len(u), len(u) + 1 + r.N(3), 65535, 36000 + r.N(29535), r.N(len(u) + 4)}[r.N(5)]
+			}
+			line = fmt.Sprintf("uri | B %s | P %d 0 0 | O | V | T | V | A %d %d | O", hx(u), len(u), ao, al)
 			kind = "uri-views-adjust"
 		case 10:
 			line, kind = fmt.Sprintf("uricmp %d %s %s %s %s", r.N(64), hx(r.URI()), hx("sip:"+s), hx(r.URI()), hx(r.URI())), "uricmp"
